@@ -5,7 +5,7 @@
    `reachable size S` = S is the state after some label sequence from the empty map.
    This file contains statements closed by `exact` only. *)
 From Coq Require Import ZArith List Bool.
-Require Import Semap Product C01_Model C01_Check C01_Theorems C01_Race.
+Require Import Semap Product C01_Model C01_Check C01_Theorems C01_Race C01_Int64.
 Import ListNotations.
 Open Scope Z_scope.
 
@@ -189,6 +189,33 @@ Theorem c01_race_commutes : forall size, 1 <= size -> forall s h w s1 g1 c1 s2 g
     g1' ++ g2' = g1 ++ g2.
 Proof. exact race_commutes. Qed.
 
+(* the code computes in Go's 64-bit int: with EVERY arithmetic operation of semaphore.go wrapped to int64 (stepG) and
+   the fit test as coded (size-cur < n), the machine is the Z machine in every state satisfying the invariant, for every
+   1 <= rwRatio <= MaxInt64: size-cur, cur+n (computed only when it fits) and cur-n stay inside [0, MaxInt64] *)
+Theorem c01_int64_quantities_in_range : forall size, size <= max64 -> forall s, Inv size s ->
+  match ent s with
+  | Some e => 0 <= size - cur e <= max64 /\
+              (forall n, 1 <= n <= size - cur e -> 0 <= cur e + n <= max64) /\
+              (forall t n, lookup t (held s) = Some n -> 0 <= cur e - n <= max64)
+  | None => True
+  end.
+Proof. exact quantities_in_range. Qed.
+
+Theorem c01_int64_faithful : forall size, 1 <= size -> size <= max64 -> forall s l, Inv size s -> lab_ok size l ->
+  stepG size (unfit_code size) s l = stepo size s l.
+Proof. exact int64_faithful. Qed.
+
+Theorem c01_int64_faithful_reachable : forall size ls S k l, 1 <= size <= max64 -> krun size kinit ls = Some S ->
+  stepG size (unfit_code size) (S k) (lab_sem size l) = stepo size (S k) (lab_sem size l).
+Proof. exact int64_faithful_reachable. Qed.
+
+(* the algebraically equal fit test `cur+n > size` wraps at rwRatio = MaxInt64: two readers in, a writer queues, one
+   reader releases - the writer is handed the semaphore beside the remaining reader *)
+Theorem c01_notify_fit_overflow_refuted :
+  exists s, runG max64 (unfit_sum max64) init [Acq 1 1; Acq 2 1; Acq 3 max64; Rel 1] = Some s /\
+            held s = [(2%nat, 1); (3%nat, max64)].
+Proof. exact notify_fit_overflow_refuted. Qed.
+
 (* non-vacuity of the monitor and of the correspondence: the pinned tree's observable behaviour on defect 1 is rejected
    (by the residue clause, and by the exclusion clause alone), the repaired tree's is accepted; both outcomes of the
    release/cancel race are accepted, a cancelled waiter that keeps its tokens is rejected *)
@@ -225,6 +252,10 @@ Theorem c01_race_leak_rejected :
 Proof. exact race_leak_rejected. Qed.
 
 Print Assumptions c01_race_commutes.
+Print Assumptions c01_int64_quantities_in_range.
+Print Assumptions c01_int64_faithful.
+Print Assumptions c01_int64_faithful_reachable.
+Print Assumptions c01_notify_fit_overflow_refuted.
 Print Assumptions c01_defect1_rejected.
 Print Assumptions c01_repaired_accepted.
 Print Assumptions c01_race_both_outcomes_accepted.
